@@ -60,9 +60,8 @@ func parseClusterNodes(data string) (map[string]*instance, error) {
 		}
 
 		// attach slots to master node
-		if len(fields) < 9 {
-			return nil, errInvalidClusterNodes
-		}
+		// NOTE: a master which serves no slots (e.g. all of its slots have been
+		// migrated away) has no slot field.
 		slots, err := parseClusterNodesSlot(fields[8:])
 		if err != nil {
 			return nil, err
